@@ -518,6 +518,116 @@ def _enum_to_range(st):
     return [_loc(new, st)]
 
 
+def _dict_view(it):
+    """(dict expr, kind) for D.values() / D.items() / D.keys() with D a plain path"""
+    if isinstance(it, ast.Call) and isinstance(it.func, ast.Attribute) and it.func.attr in ("values", "items", "keys") and not it.args and not it.keywords \
+            and access_path(it.func.value) is not None and not any(isinstance(n, ast.Subscript) for n in ast.walk(it.func.value)):
+        return it.func.value, it.func.attr
+    return None
+
+
+def _stores_into(nodes, path, names):
+    for b in nodes:
+        for n in ast.walk(b):
+            if isinstance(n, ast.Name) and n.id in names and not isinstance(n.ctx, ast.Load):
+                return True
+            if isinstance(n, (ast.Name, ast.Attribute, ast.Subscript)) and not isinstance(n.ctx, ast.Load):
+                q = access_path(n)
+                if q is not None and (q == path or path.startswith(q + ".") or q.startswith(path + "[") or q.startswith(path + ".")):
+                    return True
+                if q is None and root_name(n) == path.split(".")[0]:
+                    return True
+            if isinstance(n, ast.Call) and isinstance(n.func, ast.Attribute) and n.func.attr in _MUTATORS and access_path(n.func.value) == path:
+                return True
+            if isinstance(n, (ast.FunctionDef, ast.AsyncFunctionDef, ast.Lambda)):
+                return True
+    return False
+
+
+def _dict_loop(st, fx):
+    """for v in D.values() / for k, v in D.items() / for k in D.keys()  ->  for k in D  with v read as D[k]
+    (D a plain path that the body leaves alone): one spelling for walking a dictionary"""
+    if not (isinstance(st, ast.For) and not st.orelse):
+        return None
+    dv = _dict_view(st.iter)
+    if dv is None:
+        return None
+    D, kind = dv
+    dp = access_path(D)
+    if kind == "keys":
+        st.iter = D
+        return [st]
+    if kind == "values" and isinstance(st.target, ast.Name):
+        k, v = fx.fresh("k"), st.target.id
+    elif kind == "items" and isinstance(st.target, ast.Tuple) and len(st.target.elts) == 2 and all(isinstance(t, ast.Name) for t in st.target.elts):
+        k, v = st.target.elts[0].id, st.target.elts[1].id
+    else:
+        return None
+    if k == v or root_name(D) in (k, v) or _stores_into(st.body, dp, {k, v}):
+        return None
+    elem = ast.Subscript(value=copy.deepcopy(D), slice=ast.Name(id=k, ctx=ast.Load()), ctx=ast.Load())
+
+    class S(ast.NodeTransformer):
+        def visit_Name(self, n):
+            if n.id == v and isinstance(n.ctx, ast.Load):
+                return _loc(copy.deepcopy(elem), n)
+            return n
+    new = ast.For(target=ast.Name(id=k, ctx=ast.Store()), iter=D, body=[S().visit(b) for b in st.body], orelse=[])
+    STATS["dict_loop"] = STATS.get("dict_loop", 0) + 1
+    return [_loc(new, st)]
+
+
+class _DictComp(ast.NodeTransformer):
+    """the same inside comprehensions: [f(v) for v in D.values()] -> [f(D[k]) for k in D]"""
+
+    def __init__(self, fx):
+        self.fx = fx
+
+    def _comp(self, n):
+        self.generic_visit(n)
+        for g in n.generators:
+            dv = _dict_view(g.iter)
+            if dv is None or g.is_async:
+                continue
+            D, kind = dv
+            if kind == "keys":
+                g.iter = D
+                continue
+            if kind == "values" and isinstance(g.target, ast.Name):
+                k, v = self.fx.fresh("k"), g.target.id
+            elif kind == "items" and isinstance(g.target, ast.Tuple) and len(g.target.elts) == 2 and all(isinstance(t, ast.Name) for t in g.target.elts):
+                k, v = g.target.elts[0].id, g.target.elts[1].id
+            else:
+                continue
+            if k == v or root_name(D) in (k, v):
+                continue
+            elem = ast.Subscript(value=copy.deepcopy(D), slice=ast.Name(id=k, ctx=ast.Load()), ctx=ast.Load())
+
+            class S(ast.NodeTransformer):
+                def visit_Name(self, m):
+                    if m.id == v and isinstance(m.ctx, ast.Load):
+                        return _loc(copy.deepcopy(elem), m)
+                    return m
+            later = n.generators[n.generators.index(g) + 1:]
+            g.ifs = [S().visit(i_) for i_ in g.ifs]
+            for g2 in later:
+                g2.iter = S().visit(g2.iter)
+                g2.ifs = [S().visit(i_) for i_ in g2.ifs]
+            if isinstance(n, ast.DictComp):
+                n.key, n.value = S().visit(n.key), S().visit(n.value)
+            else:
+                n.elt = S().visit(n.elt)
+            g.target = ast.Name(id=k, ctx=ast.Store())
+            g.iter = D
+            STATS["dict_loop"] = STATS.get("dict_loop", 0) + 1
+        return n
+
+    visit_ListComp = visit_SetComp = visit_GeneratorExp = visit_DictComp = _comp
+
+    def visit_Lambda(self, n):
+        return n
+
+
 def _terminates(stmts):
     return bool(stmts) and isinstance(stmts[-1], (ast.Return, ast.Raise, ast.Continue, ast.Break))
 
@@ -652,6 +762,45 @@ def _counter_to_enum(stmts, k, fn_tail_reads):
     return _loc(loop, lp), init
 
 
+def _comp_walrus(st, occ):
+    """[x for k in R if (x := E) <= N]  ->  [E for k in R if E <= N]   for a call-free E and an x that lives only inside the
+    comprehension"""
+    for f, v in ast.iter_fields(st):
+        exprs = [v] if isinstance(v, ast.expr) else ([x for x in v if isinstance(x, ast.expr)] if isinstance(v, list) else [])
+        for root in exprs:
+            for comp in [n for n in ast.walk(root) if isinstance(n, (ast.ListComp, ast.SetComp, ast.GeneratorExp))]:
+                if len(comp.generators) != 1:
+                    continue
+                g = comp.generators[0]
+                ws = [n for i_ in g.ifs for n in ast.walk(i_) if isinstance(n, ast.NamedExpr)]
+                if len(ws) != 1 or not isinstance(ws[0].target, ast.Name) or not _no_call(ws[0].value):
+                    continue
+                w = ws[0]
+                x = w.target.id
+                inside = sum(1 for n in ast.walk(comp) if isinstance(n, ast.Name) and n.id == x)
+                if occ.get(x, 0) != inside or any(isinstance(n, ast.Name) and n.id == x for n in ast.walk(w.value)) \
+                        or any(isinstance(n, ast.Name) and n.id == x for n in ast.walk(g.iter)):
+                    continue
+                # the walrus must be the first thing its condition evaluates, and no earlier condition may read x
+                k = [i for i, i_ in enumerate(g.ifs) if any(n is w for n in ast.walk(i_))][0]
+                if any(isinstance(n, ast.Name) and n.id == x for i_ in g.ifs[:k] for n in ast.walk(i_)):
+                    continue
+                probe = ast.If(test=g.ifs[k], body=[ast.Pass()], orelse=[])
+                r = _hoist_walrus(probe)
+                if r is None:
+                    continue
+                g.ifs[k] = r[1].test
+
+                class S(ast.NodeTransformer):
+                    def visit_Name(self, n):
+                        if n.id == x and isinstance(n.ctx, ast.Load):
+                            return _loc(copy.deepcopy(w.value), n)
+                        return n
+                g.ifs = [S().visit(i_) for i_ in g.ifs]
+                comp.elt = S().visit(comp.elt)
+                STATS["comp_walrus"] = STATS.get("comp_walrus", 0) + 1
+
+
 def _hoist_walrus(st):
     """`if (n := E) > 0: ...` / `y = g((n := E))` -> `n = E` followed by the statement reading n, when the assignment
     expression is evaluated unconditionally and nothing evaluated before it can observe or disturb it"""
@@ -739,6 +888,10 @@ def _block(stmts, fx, occ, top=False):
     # tuple assignments are split first so that a loop counter initialised in one (`flag, i = False, 0`) is visible
     pre = []
     for st in stmts:
+        if isinstance(st, ast.AnnAssign):
+            # annotations of locals / attributes carry no behaviour: `x: T = E` is `x = E`, a bare `x: T` is nothing
+            STATS["annot"] = STATS.get("annot", 0) + 1
+            st = _loc(ast.Assign(targets=[st.target], value=st.value), st) if st.value is not None else _loc(ast.Pass(), st)
         r = _split_tuple(st)
         pre.extend(r if r is not None else [st])
     stmts = pre
@@ -791,15 +944,35 @@ def _stmt(st, fx, occ):
         if st.value is None:
             return [_loc(ast.Pass(), st)]
         return _block([_loc(ast.Assign(targets=[st.target], value=st.value), st)], fx, occ)
-    if isinstance(st, ast.Assign) and len(st.targets) == 1 and isinstance(st.targets[0], ast.Name) and isinstance(st.value, ast.BinOp) \
-            and isinstance(st.value.op, (ast.Add, ast.Sub)) and isinstance(st.value.left, ast.Name) and st.value.left.id == st.targets[0].id \
-            and isinstance(st.value.right, ast.Constant) and isinstance(st.value.right.value, (int, float)) and not isinstance(st.value.right.value, bool):
+    if isinstance(st, ast.Assign) and len(st.targets) == 1 and isinstance(st.targets[0], (ast.Name, ast.Attribute, ast.Subscript)) and isinstance(st.value, ast.BinOp) \
+            and isinstance(st.value.op, (ast.Add, ast.Sub)) and access_path(st.targets[0]) is not None and _no_call(st.targets[0]) \
+            and ((access_path(st.value.left) == access_path(st.targets[0])
+                  and isinstance(st.value.right, ast.Constant) and isinstance(st.value.right.value, (int, float)) and not isinstance(st.value.right.value, bool))
+                 or (isinstance(st.value.op, ast.Add) and access_path(st.value.right) == access_path(st.targets[0])
+                     and isinstance(st.value.left, ast.Constant) and isinstance(st.value.left.value, (int, float)) and not isinstance(st.value.left.value, bool))):
         # x = x + c with a numeric literal (counters, accumulators): read as x += c; the rules take both as a rebinding of x
         STATS["aug"] = STATS.get("aug", 0) + 1
-        st = _loc(ast.AugAssign(target=ast.Name(id=st.targets[0].id, ctx=ast.Store()), op=st.value.op, value=st.value.right), st)
+        st = _loc(ast.AugAssign(target=st.targets[0], op=st.value.op,
+                                value=st.value.right if isinstance(st.value.right, ast.Constant) else st.value.left), st)
     r = _hoist_walrus(st)
     if r is not None:
         return _block(r, fx, occ)
+    if isinstance(st, ast.While) and not st.orelse and any(isinstance(n, ast.NamedExpr) for n in ast.walk(st.test)):
+        # while (x := E) ...: body   ->   while True: x = E; if not ...: break; body
+        probe = ast.If(test=st.test, body=[ast.Pass()], orelse=[])
+        r = _hoist_walrus(probe)
+        if r is not None:
+            assign, tested = r
+            brk = _loc(ast.If(test=ast.UnaryOp(op=ast.Not(), operand=tested.test), body=[ast.Break()], orelse=[]), st)
+            loop = _loc(ast.While(test=ast.Constant(value=True), body=[assign, brk] + st.body, orelse=[]), st)
+            STATS["walrus_while"] = STATS.get("walrus_while", 0) + 1
+            return _block([loop], fx, occ)
+    _comp_walrus(st, occ)
+    for f_, v_ in ast.iter_fields(st):
+        if isinstance(v_, ast.expr):
+            setattr(st, f_, _DictComp(fx).visit(v_))
+        elif isinstance(v_, list) and v_ and isinstance(v_[0], ast.expr):
+            setattr(st, f_, [_DictComp(fx).visit(x) for x in v_])
     _canon_exprs(st)
     r = _swap_not(st)
     if r is not None:
@@ -815,6 +988,9 @@ def _stmt(st, fx, occ):
             st.target = st.target.elts[1]
             st.iter = st.iter.args[0]
     r = _enum_to_range(st)
+    if r is not None:
+        return _block(r, fx, occ)
+    r = _dict_loop(st, fx)
     if r is not None:
         return _block(r, fx, occ)
     if isinstance(st, ast.If) and st.orelse and _terminates(st.body):
@@ -977,7 +1153,61 @@ def _unalias_once(fn):
     return False
 
 
+def _fresh_then_store(fn):
+    """`x = []` directly followed by `P = x` (P an attribute path): the same object under two names; written as
+    `P = []; x = P` the local is a plain alias of the path and goes away with the other aliases"""
+    def fresh(v):
+        return (isinstance(v, (ast.List, ast.Dict, ast.Set)) and not getattr(v, "elts", getattr(v, "keys", None))) or \
+            (isinstance(v, ast.Call) and isinstance(v.func, ast.Name) and v.func.id in ("list", "dict", "set") and not v.args and not v.keywords)
+    changed = False
+    for node in ast.walk(fn):
+        for f in ("body", "orelse", "finalbody"):
+            b = getattr(node, f, None)
+            if not (isinstance(b, list) and b and isinstance(b[0], ast.stmt)):
+                continue
+            for k in range(len(b) - 1):
+                a, c = b[k], b[k + 1]
+                if isinstance(a, ast.Assign) and len(a.targets) == 1 and isinstance(a.targets[0], ast.Name) and fresh(a.value) \
+                        and isinstance(c, ast.Assign) and len(c.targets) == 1 and isinstance(c.targets[0], ast.Attribute) \
+                        and isinstance(c.value, ast.Name) and c.value.id == a.targets[0].id:
+                    pp = _pure_path(_as_load_expr(c.targets[0]))
+                    if pp is None or root_name(c.targets[0]) == a.targets[0].id:
+                        continue
+                    b[k] = _loc(ast.Assign(targets=[c.targets[0]], value=a.value), a)
+                    b[k + 1] = _loc(ast.Assign(targets=[ast.Name(id=a.targets[0].id, ctx=ast.Store())], value=_as_load_expr(c.targets[0])), c)
+                    STATS["fresh_store"] = STATS.get("fresh_store", 0) + 1
+                    changed = True
+    return changed
+
+
+def _as_load_expr(t):
+    t = copy.deepcopy(t)
+    for n in ast.walk(t):
+        if hasattr(n, "ctx"):
+            n.ctx = ast.Load()
+    return t
+
+
+def _strip_annotations(fn):
+    """annotated assignments of the function's own statements become plain ones (before any other pass looks at them)"""
+    for node in ast.walk(fn):
+        if isinstance(node, (ast.FunctionDef, ast.AsyncFunctionDef, ast.ClassDef)) and node is not fn:
+            continue
+        for f in ("body", "orelse", "finalbody"):
+            b = getattr(node, f, None)
+            if isinstance(b, list) and b and isinstance(b[0], ast.stmt):
+                for k, st in enumerate(b):
+                    if isinstance(st, ast.AnnAssign):
+                        STATS["annot"] = STATS.get("annot", 0) + 1
+                        b[k] = _loc(ast.Assign(targets=[st.target], value=st.value), st) if st.value is not None else _loc(ast.Pass(), st)
+        for h in getattr(node, "handlers", []) or []:
+            for k, st in enumerate(h.body):
+                if isinstance(st, ast.AnnAssign):
+                    h.body[k] = _loc(ast.Assign(targets=[st.target], value=st.value), st) if st.value is not None else _loc(ast.Pass(), st)
+
+
 def _unalias(fn):
+    _fresh_then_store(fn)
     for _ in range(40):
         if not _unalias_once(fn):
             break
@@ -987,6 +1217,7 @@ COMP = [True]     # lower statement-level comprehensions (switched off for the r
 
 
 def normalize_function(fn):
+    _strip_annotations(fn)
     if UNALIAS[0]:
         _unalias(fn)
     fx = _Fn(fn)
@@ -1016,10 +1247,87 @@ def _class_body(body):
     return out
 
 
+def _literal(e):
+    if isinstance(e, ast.Constant):
+        return isinstance(e.value, (str, int, float, bool, type(None)))
+    if isinstance(e, ast.UnaryOp) and isinstance(e.op, (ast.USub, ast.UAdd)):
+        return isinstance(e.operand, ast.Constant) and isinstance(e.operand.value, (int, float))
+    if isinstance(e, ast.Tuple):
+        return all(_literal(x) for x in e.elts)
+    return False
+
+
+def module_constants(tree):
+    """NAME = <literal> bound exactly once at module level and nowhere else in the module"""
+    stores = {}
+    for n in ast.walk(tree):
+        if isinstance(n, ast.Name) and not isinstance(n.ctx, ast.Load):
+            stores[n.id] = stores.get(n.id, 0) + 1
+        elif isinstance(n, (ast.Global, ast.Nonlocal)):
+            for nm in n.names:
+                stores[nm] = stores.get(nm, 0) + 2
+        elif isinstance(n, ast.arg):
+            stores[n.arg] = stores.get(n.arg, 0) + 1
+        elif isinstance(n, ast.alias):
+            nm = (n.asname or n.name).split(".")[0]
+            stores[nm] = stores.get(nm, 0) + 1
+        elif isinstance(n, (ast.FunctionDef, ast.AsyncFunctionDef, ast.ClassDef)):
+            stores[n.name] = stores.get(n.name, 0) + 1
+    out = {}
+    for st in tree.body:
+        v = None
+        if isinstance(st, ast.Assign) and len(st.targets) == 1 and isinstance(st.targets[0], ast.Name):
+            nm, v = st.targets[0].id, st.value
+        elif isinstance(st, ast.AnnAssign) and isinstance(st.target, ast.Name) and st.value is not None:
+            nm, v = st.target.id, st.value
+        if v is not None and _literal(v) and stores.get(nm, 0) == 1:
+            out[nm] = v
+    return out
+
+
+PKG_CONSTS = {}      # module name -> its literal constants (filled by the loader for `from .m import NAME`)
+
+
+def _inline_constants(tree):
+    """reads of a literal module constant (own or imported from a sibling module) inside functions become the literal:
+    `features[FRONT_NUMBER]` with FRONT_NUMBER = 'front_number' is `features['front_number']`"""
+    consts = dict(module_constants(tree))
+    for st in tree.body:
+        if isinstance(st, ast.ImportFrom) and st.level >= 1 and st.module:
+            src = PKG_CONSTS.get(st.module.split(".")[-1], {})
+            for a in st.names:
+                if a.name in src and (a.asname or a.name) not in consts:
+                    # imported under a name that is bound only by this import
+                    consts[a.asname or a.name] = src[a.name]
+    if not consts:
+        return tree
+
+    class S(ast.NodeTransformer):
+        def visit_Name(self, n):
+            if isinstance(n.ctx, ast.Load) and n.id in consts:
+                STATS["const"] = STATS.get("const", 0) + 1
+                return _loc(copy.deepcopy(consts[n.id]), n)
+            return n
+    for fn in ast.walk(tree):
+        if isinstance(fn, (ast.FunctionDef, ast.AsyncFunctionDef)):
+            shadow = {a.arg for a in ast.walk(fn.args) if isinstance(a, ast.arg)}
+            shadow |= {n.id for n in ast.walk(fn) if isinstance(n, ast.Name) and not isinstance(n.ctx, ast.Load)}
+            live = {k: v for k, v in consts.items() if k not in shadow}
+            if live:
+                saved, consts_ref = consts, live
+                consts = live
+                fn.body = [S().visit(b) for b in fn.body]
+                # default values read the constant at definition time: the same literal
+                fn.args.defaults = [S().visit(d) for d in fn.args.defaults]
+                consts = saved
+    return tree
+
+
 def normalize_module(tree, comp=True):
     if not ENABLED:
         return tree
     COMP[0] = comp
+    tree = _inline_constants(tree)
     try:
         tree.body = _class_body(tree.body)
     finally:
